@@ -313,6 +313,9 @@ def sig_key(cls, detail):
 
 
 def write_replay(prop, variant, tier, seed, cls, detail, plan_text, minimised_note, run_hash, idx):
+    global REPLAYS
+    if os.environ.get('VERIF_NO_REPLAY_WRITE'):
+        REPLAYS = os.path.join(BUILD, 'replays_scratch')
     os.makedirs(REPLAYS, exist_ok=True)
     name = f'{prop}-{seed}-{re.sub(r"[^A-Za-z0-9_]+", "_", cls)[:40]}.json'
     path = os.path.join(REPLAYS, name)
@@ -348,13 +351,23 @@ def cmd_check(prop, tier, budget_s, nworkers, variants, base_seed):
     groups = {}
     for r in all_results:
         for vio in r['viol']:
+            if vio['cls'].startswith('sanitizer:') and vio['cls'].endswith(':?'):
+                print('HARNESS-ERROR: sanitizer report without a library frame (seed %s): %s' % (r['seed'], vio['detail'][:200]))
+                continue
             groups.setdefault(sig_key(vio['cls'], vio['detail']), []).append({'seed': r['seed'], 'idx': r['i'], 'cls': vio['cls'], 'detail': vio['detail'], 'variant': r['variant'], 'hash': r['hash'], 'plan': None})
     for c in all_crashes:
+        if c['cls'].startswith('sanitizer:') and c['cls'].endswith(':?') and 'wr_' not in c['detail'] and '/repo/src' not in c['detail']:
+            c['harness'] = True      # no library frame on the stack: the harness itself is at fault
         if c.get('harness'):
             print('HARNESS-ERROR: worker watchdog fired (seed %s)' % c['seed'])
             continue
         groups.setdefault(sig_key(c['cls'], c['detail']), []).append({'seed': c['seed'], 'idx': c['idx'], 'cls': c['cls'], 'detail': c['detail'], 'variant': c['variant'], 'hash': None, 'plan': c['plan']})
     violations_out, known_out, harness_err = [], [], False
+    if os.environ.get('VERIF_TRIAGE'):      # developer aid: list the classes, no gating / minimisation
+        for key, lst in sorted(groups.items()):
+            print(f'TRIAGE class={key} hits={len(lst)} seed={lst[0]["seed"]} detail={lst[0]["detail"][:260]}')
+        write_evidence(prop, tier, base_seed, all_results, all_crashes, [], [], time.time() - t0, variants, edges, det_checked, 0, nworkers)
+        return 1 if groups else 0
     for key, lst in sorted(groups.items()):
         first = lst[0]
         k = match_known(known, prop, first['cls'], first['detail'])
